@@ -26,6 +26,17 @@ func sameVar(a, b ssa.Value) bool {
 			return true
 		}
 	}
+	// the same member of the same struct value, or the address of the same member of the same variable
+	if fa, ok := a.(*ssa.Field); ok {
+		if fb, ok := b.(*ssa.Field); ok && fa.Field == fb.Field && sameVar(fa.X, fb.X) {
+			return true
+		}
+	}
+	if fa, ok := a.(*ssa.FieldAddr); ok {
+		if fb, ok := b.(*ssa.FieldAddr); ok && fa.Field == fb.Field && sameVar(fa.X, fb.X) {
+			return true
+		}
+	}
 	ua, ok1 := a.(*ssa.UnOp)
 	ub, ok2 := b.(*ssa.UnOp)
 	if ok1 && ok2 && ua.Op == token.MUL && ub.Op == token.MUL {
